@@ -144,10 +144,14 @@ Fixpoint hmrun (p : mpins) (m : motor) (ops : list mop) : list tev * list dget *
 
 (* ---- the guard ---- *)
 Definition num_ok (v : pynum) : bool := match qof v with Some _ => true | None => false end.
-Definition speed_ok (v : pynum) : bool := num_ok v && Qleb (-(1)) (qval v) && Qleb (qval v) 1.
+(* a speed argument: any number.  Values outside -1..1 are inside the guard too: the host clamps them (_clamp_speed) before
+   anything else happens - for ramp BEFORE interpolating - and the statement demands the same of the device *)
+Definition speed_ok (v : pynum) : bool := num_ok v.
+(* the documented range, for the theorems that speak about out-of-range commands *)
+Definition speed_in_unit (v : pynum) : bool := num_ok v && Qleb (-(1)) (qval v) && Qleb (qval v) 1.
 Definition dur_ok (v : pynum) : bool := num_ok v && Qleb 0 (qval v).
 
-(* speeds numbers within -1..1, durations numbers >= 0 (speeds of any magnitude: also 0 < |x| < 1/510, where the PWM count is 0) *)
+(* speeds numbers of ANY value (out-of-range ones are clamped on both sides), durations numbers >= 0 *)
 Definition motor_in_range (m : motor) (o : mop) : bool :=
   match o with
   | MSetSpeed v => speed_ok v
